@@ -246,13 +246,17 @@ def orders_case(case, orders):
         with warnings.catch_warnings():
             warnings.simplefilter("ignore")
             with configured(case):
+                # the reference: every accessor as the ONLY call on a runner of its own
+                single = {}
+                for name in DUMP_ORDER:
+                    single[name] = call_accessors(make_runner(case), [name])[0][1]
                 fresh = []
                 for o in orders:
                     lr = make_runner(case)
                     fresh.append({"answers": call_accessors(lr, o), "evals": evals(lr)})
                 lr = make_runner(case)
                 same = [call_accessors(lr, orders[0]), call_accessors(lr, orders[-1]), call_accessors(lr, orders[0])]
-                out = {"fresh": fresh, "same": same, "same_evals": evals(lr)}
+                out = {"single": single, "fresh": fresh, "same": same, "same_evals": evals(lr)}
                 if case.get("metadata"):
                     lr = make_runner(case, provider=mutating_provider(case["metadata"]))
                     out["mutating"] = [call_accessors(lr, orders[0]), call_accessors(lr, orders[-1])]
